@@ -22,7 +22,7 @@ func cloneTrace(t *Trace) *Trace {
 func normalise(t *Trace) *Trace {
 	n := &Trace{Version: t.Version, Cfg: t.Cfg}
 	for _, s := range t.Steps {
-		empty := s.Idle == 0 && len(s.Ops) == 0 && len(s.Absent) == 0 && !s.Regen && s.Dt <= 6
+		empty := s.Idle == 0 && len(s.Ops) == 0 && len(s.Absent) == 0 && !s.Regen && (s.Dt == 5 || s.Dt == 0)
 		if s.Idle > 0 || empty {
 			k := s.Idle
 			if empty {
@@ -45,6 +45,7 @@ func Shrink(t *Trace, sig string, opt RunOpts, maxTime time.Duration, maxExec in
 	execs := 0
 	opt.Stop = false
 	opt.Verbose = false
+	opt.StopSig = sig
 	test := func(c *Trace) bool {
 		if execs >= maxExec || time.Since(t0) > maxTime {
 			return false
@@ -61,6 +62,94 @@ func Shrink(t *Trace, sig string, opt RunOpts, maxTime time.Duration, maxExec in
 	cur := cloneTrace(t)
 	if !test(cur) {
 		return t
+	}
+	// 0. bulk simplifications: uniform block time, no absences, no duplicates
+	{
+		c := cloneTrace(cur)
+		for si := range c.Steps {
+			if c.Steps[si].Idle == 0 {
+				c.Steps[si].Dt = 5
+			}
+			c.Steps[si].Absent = nil
+			for oi := range c.Steps[si].Ops {
+				c.Steps[si].Ops[oi].Dup = 0
+			}
+		}
+		if test(c) {
+			cur = normalise(c)
+		}
+	}
+	// 0b. relevance slicing: keep node/DID/staking ops and only the storage ops of one data index
+	{
+		seenD := map[int]bool{}
+		var ds []int
+		for si := len(cur.Steps) - 1; si >= 0; si-- {
+			for _, op := range cur.Steps[si].Ops {
+				for _, d := range append([]int{op.D}, op.Ds...) {
+					if isDataOp(op.K) && !seenD[d] {
+						seenD[d] = true
+						ds = append(ds, d)
+					}
+				}
+			}
+		}
+		for i, d := range ds {
+			if i >= 12 {
+				break
+			}
+			c := cloneTrace(cur)
+			for si := range c.Steps {
+				var keep []Op
+				for _, op := range c.Steps[si].Ops {
+					if !isDataOp(op.K) {
+						keep = append(keep, op)
+						continue
+					}
+					rel := op.D == d && len(op.Ds) == 0
+					for _, x := range op.Ds {
+						if x == d {
+							rel = true
+						}
+					}
+					if rel {
+						if len(op.Ds) > 0 {
+							op.Ds = []int{d}
+						}
+						keep = append(keep, op)
+					}
+				}
+				c.Steps[si].Ops = keep
+			}
+			if test(c) {
+				cur = c
+				break
+			}
+		}
+	}
+	// 0c. drop heartbeats and non-storage noise in bulk
+	for _, kinds := range [][]string{{"heartbeat"}, {"claim", "send", "perm", "report", "recover", "set_payaddr2"}, {"delegate", "undelegate", "redelegate"}} {
+		c := cloneTrace(cur)
+		for si := range c.Steps {
+			if si < 3 {
+				continue
+			}
+			var keep []Op
+			for _, op := range c.Steps[si].Ops {
+				drop := false
+				for _, k := range kinds {
+					if op.K == k || op.Note == k {
+						drop = true
+					}
+				}
+				if !drop {
+					keep = append(keep, op)
+				}
+			}
+			c.Steps[si].Ops = keep
+		}
+		if test(c) {
+			cur = c
+		}
 	}
 	// 1. drop ops in chunks
 	for {
@@ -115,6 +204,18 @@ func Shrink(t *Trace, sig string, opt RunOpts, maxTime time.Duration, maxExec in
 		}
 	}
 	cur = normalise(cur)
+	{
+		c := cloneTrace(cur)
+		for si := range c.Steps {
+			if c.Steps[si].Idle == 0 {
+				c.Steps[si].Dt = 5
+			}
+			c.Steps[si].Absent = nil
+		}
+		if test(c) {
+			cur = normalise(c)
+		}
+	}
 	// 2. drop faults attached to steps (absent validators, long dt, duplicates)
 	for si := range cur.Steps {
 		s := &cur.Steps[si]
@@ -125,7 +226,7 @@ func Shrink(t *Trace, sig string, opt RunOpts, maxTime time.Duration, maxExec in
 				cur = c
 			}
 		}
-		if s.Dt > 6 {
+		if s.Dt != 5 && s.Dt != 0 && s.Idle == 0 {
 			c := cloneTrace(cur)
 			c.Steps[si].Dt = 5
 			if test(c) {
@@ -164,4 +265,12 @@ func Shrink(t *Trace, sig string, opt RunOpts, maxTime time.Duration, maxExec in
 		}
 	}
 	return normalise(cur)
+}
+
+func isDataOp(k string) bool {
+	switch k {
+	case "store", "ready", "complete", "cancel", "terminate", "renew", "migrate", "perm", "report", "recover":
+		return true
+	}
+	return false
 }
